@@ -583,7 +583,19 @@ func init() {
 				}
 				return VTuple{ex.mkSlice(e), nilErr()}
 			}
-			return VTuple{VSlice{}, ex.mkErr("encoding/hex: invalid", nil)}
+			// malformed text: like encoding/hex, return the bytes decoded before the first bad pair (callers that ignore
+			// the error see them) together with the error
+			var pre []Value
+			for i := 0; i+1 < len(bs); i += 2 {
+				if !ex.decide(And(isHexDigit(bs[i]), isHexDigit(bs[i+1]))) {
+					break
+				}
+				pre = append(pre, VInt{ex.nameT(Add(Mul(hexDigitVal(bs[i]), IntC(16)), hexDigitVal(bs[i+1])))})
+			}
+			if pre == nil {
+				pre = []Value{}
+			}
+			return VTuple{ex.mkSlice(pre), ex.mkErr("encoding/hex: invalid", nil)}
 		}
 		m["encoding/hex.EncodeToString"] = func(ex *Exec, fr *frame, cc *ssa.CallCommon, a []Value) Value {
 			if s, ok := a[0].(VStr); ok && s.Atom != nil {
